@@ -25,14 +25,15 @@ type epDef struct {
 	base     string // "", "/", "/base/v1"
 	preserve bool
 	model    string
+	typ      string // endpoint type; "" = ollama
 }
 
 var defs = []epDef{
-	{"plain", "", false, "m-plain"},
-	{"slash", "/", true, "m-slash"},
-	{"base", "/base/v1", true, "m-base"},
-	{"basenp", "/base/v1", false, "m-basenp"},
-	{"deep", "/a/b/c/", true, "m-deep"},
+	{"plain", "", false, "m-plain", ""},
+	{"slash", "/", true, "m-slash", "lm-studio"},
+	{"base", "/base/v1", true, "m-base", ""},
+	{"basenp", "/base/v1", false, "m-basenp", "lm-studio"},
+	{"deep", "/a/b/c/", true, "m-deep", ""},
 }
 
 var hostileSegs = []string{"..", ".", "%2e%2e", "%2E%2e", ".%2e", "%2e.", "..%2f", "%2f", "%2F..", "..;x", ";params", "%5c..", "..%5c", "%252e%252e", "a", "b.json", "v1", "%20", "%00", "é", "%c3%a9", "*", "~", "@", ":", "$&+,=", "%3f", "%23"}
@@ -205,7 +206,11 @@ func runEngine(run *rep.Run, rng *rand.Rand, eng string, defs []epDef) {
 		b.KeepBodies = true
 		backs[d.name] = b
 		defer b.Close()
-		eps = append(eps, world.Endpoint{Name: d.name, URL: b.URL() + d.base, Type: "ollama", Priority: 100 - i, PreservePath: d.preserve})
+		typ := d.typ
+		if typ == "" {
+			typ = "ollama"
+		}
+		eps = append(eps, world.Endpoint{Name: d.name, URL: b.URL() + d.base, Type: typ, Priority: 100 - i, PreservePath: d.preserve})
 	}
 	w, err := world.Start(world.Spec{Engine: eng, Balancer: "priority", Endpoints: eps})
 	if err != nil {
@@ -248,8 +253,15 @@ func runEngine(run *rep.Run, rng *rand.Rand, eng string, defs []epDef) {
 		d := defs[rng.Intn(len(defs))]
 		target, plain := genTarget(rng)
 		prefix := "/olla/proxy"
+		pfxKey := ""
 		if rng.Intn(3) == 0 {
 			prefix = "/olla/ollama"
+			if d.typ == "lm-studio" { // a provider with several spellings of its prefix
+				prefix = []string{"/olla/lm-studio", "/olla/lmstudio", "/olla/lm_studio"}[rng.Intn(3)]
+				if prefix != "/olla/lm-studio" {
+					pfxKey = "/provider-prefix-alias"
+				}
+			}
 		}
 		nonce := fmt.Sprintf("u%s%s%d", eng[:1], d.name, i)
 		q := genQuery(rng, nonce)
@@ -331,7 +343,7 @@ func runEngine(run *rep.Run, rng *rand.Rand, eng string, defs []epDef) {
 			}
 			gd, _ := url.PathUnescape(got.Path)
 			if gd != want {
-				run.Violation("C16/plain-target-construction/"+d.name, fmt.Sprintf("target %q on endpoint %s (base %q, preserve_path=%v) was requested as %q, expected %q", target, d.name, d.base, d.preserve, got.Path, want), wit)
+				run.Violation("C16/plain-target-construction/"+d.name+pfxKey, fmt.Sprintf("target %q (after %s) on endpoint %s (base %q, preserve_path=%v) was requested as %q, expected %q", target, prefix, d.name, d.base, d.preserve, got.Path, want), wit)
 			}
 		}
 	}
